@@ -533,7 +533,12 @@ func TestC11(t *testing.T) {
 		}
 		return
 	}
-	rapid.Check(t, func(rt *rapid.T) {
+	rapid.Check(t, propC11(scratch))
+}
+
+func propC11(scratch string) func(*rapid.T) {
+	return func(rt *rapid.T) {
+		rec := vlib.For("C11", "TestC11")
 		c := rapid.Custom(genCodecCase).Draw(rt, "case")
 		cj := vlib.JSON(c)
 		rec.Begin(cj)
@@ -543,7 +548,14 @@ func TestC11(t *testing.T) {
 			rec.Violation(codecKind(c, msg), msg, cj, nil)
 			rt.Fatalf("%s", msg)
 		}
-	})
+	}
+}
+
+// FuzzC11 hands the same property to Go's coverage-guided fuzzer (thorough tier only).
+func FuzzC11(f *testing.F) {
+	scratch := filepath.Join(os.Getenv("VERIF_SCRATCH"), fmt.Sprintf("fz%d", os.Getpid()))
+	_ = os.MkdirAll(scratch, 0o755)
+	f.Fuzz(rapid.MakeFuzz(propC11(scratch)))
 }
 
 func codecKind(c codecCase, msg string) string {
